@@ -23,16 +23,36 @@ package alpine
 //@ func compareSuffixArrays
 //@   comparator a ~ b where namedSuffixes(a) && namedSuffixes(b)   [C01]
 
+//@ func hasLeadingZero
+//@   ensures result == (len(s) > 1 && s[0] == '0')
+
+// Parsed components: the text is a digit string and the value is its number.
+//@ spec wfComp(c numericComponent) bool = isdigits(c.originalStr) && c.value == numval(c.originalStr)
+//@ spec wfNums(a []numericComponent) bool = strlex() && (forall i int :: 0 <= i && i < len(a) ==> wfComp(a[i]))
+
 //@ func compareNumericArraysNumeric
-//@   comparator a ~ b                                     [C01]
+//@   comparator a ~ b where wfNums(a) && wfNums(b)         [C01]
+
+// Data invariant of parsed versions (established by NewVersion, see below).
+//@ spec wf(v *Version) bool = wfNums(v.numeric) && namedSuffixes(v.suffixes)
 
 //@ func (*Version).Compare
-//@   comparator v ~ other                                 [C01]
+//@   comparator v ~ other where wf(v) && wf(other)        [C01]
 
 // ---- constructors: value xor error (C06); the fact is structural (untagged) because callers rely on it
 
+//@ func parseNumericComponents
+//@   requires digdots(s)
+//@   loop 1 invariant forall j int :: 0 <= j && j <= rangeindex ==> wfComp(numeric[j])
+//@   ensures wf: result1 == nil ==> wfNums(result0)       [C01]
+
+//@ func parseSuffixes
+//@   loop 1 invariant namedSuffixes(suffixes)
+//@   ensures wf: result1 == nil ==> namedSuffixes(result0)   [C01]
+
 //@ func (*Ecosystem).NewVersion
 //@   ensures xor: (result0 != nil) == (result1 == nil)
+//@   ensures wf: result1 == nil ==> wf(result0)           [C01]
 
 //@ func (*Ecosystem).NewVersionRange
 //@   ensures xor: (result0 != nil) == (result1 == nil)
@@ -57,3 +77,9 @@ package alpine
 
 //@ lemma c20-equal [C20]: forall c *constraint, v1, v2 *Version, ecosystem *Ecosystem :: trigger(satisfiesConstraint(v1, c, ecosystem), satisfiesConstraint(v2, c, ecosystem)) && c != nil && ecosystem != nil && v1 != nil && v2 != nil && (c.operator == "=" || c.operator == "!=" || c.operator == "<" || c.operator == "<=" || c.operator == ">" || c.operator == ">=") && v1.Compare(v2) == 0 ==> satisfiesConstraint(v1, c, ecosystem) == satisfiesConstraint(v2, c, ecosystem)
 //@ lemma c20-convex [C20]: forall c *constraint, a, b, d *Version, ecosystem *Ecosystem :: trigger(satisfiesConstraint(a, c, ecosystem), satisfiesConstraint(d, c, ecosystem), a.Compare(b), b.Compare(d)) && c != nil && ecosystem != nil && a != nil && b != nil && d != nil && (c.operator == "=" || c.operator == "!=" || c.operator == "<" || c.operator == "<=" || c.operator == ">" || c.operator == ">=") && c.operator != "!=" && a.Compare(b) <= 0 && b.Compare(d) <= 0 && satisfiesConstraint(a, c, ecosystem) && satisfiesConstraint(d, c, ecosystem) ==> satisfiesConstraint(b, c, ecosystem)
+
+//@ spec lz(s string) bool = len(s) > 1 && s[0] == '0'
+//@ spec scmp(a string, b string) int = a == b ? 0 : (a < b ? -1 : 1)
+//@ spec icmp(a int, b int) int = a == b ? 0 : (a < b ? -1 : 1)
+//@ spec ecmp(x numericComponent, y numericComponent) int = (lz(x.originalStr) || lz(y.originalStr)) ? scmp(x.originalStr, y.originalStr) : icmp(x.value, y.value)
+//@ lemma elem-trans [C01]: forall x, y, z numericComponent :: strlex() && wfComp(x) && wfComp(y) && wfComp(z) && ecmp(x, y) <= 0 && ecmp(y, z) <= 0 ==> ecmp(x, z) <= 0 && ((ecmp(x, y) < 0 || ecmp(y, z) < 0) ==> ecmp(x, z) < 0)
